@@ -39,16 +39,22 @@ def gen_block(rng, name, natoms=None, nrexcl=None):
                 if sec == 'dihedrals' and rng.random() < 0.3:
                     rows.append({'atoms': list(idx), 'params': [FUNC[sec]] + [f'{rng.uniform(0.1, 9):.3f}' for _ in range(2)], 'meta': {}})
             inters[sec] = rows
-    # make the block connected through bonds so that the residue is one fragment
+    # make the block connected through bonds (sometimes: through constraints only, a rigid residue without any bond)
+    # so that the residue is one fragment
+    rigid = rng.random() < 0.2
+    if rigid:
+        inters.pop('bonds', None)
     if natoms > 1:
         have = {frozenset(r['atoms']) for r in inters.get('bonds', [])} | {frozenset(r['atoms']) for r in inters.get('constraints', [])}
-        rows = inters.setdefault('bonds', [])
+        rows = inters.setdefault('constraints' if rigid else 'bonds', [])
         for i in range(1, natoms):
             comp = _components(natoms, have)
             if comp[i] != comp[0]:
                 j = rng.choice([k for k in range(natoms) if comp[k] == comp[0]])
-                rows.append({'atoms': [j, i], 'params': ['1', '0.300', '1000.000'], 'meta': {}})
+                rows.append({'atoms': [j, i], 'params': ['1', '0.300'] if rigid else ['1', '0.300', '1000.000'], 'meta': {}})
                 have.add(frozenset([j, i]))
+    if not inters.get('constraints') and 'constraints' in inters:
+        del inters['constraints']
     return {'name': name, 'atoms': atoms, 'inters': inters, 'nrexcl': rng.choice([1, 1, 2, 3, 0, 4]) if nrexcl is None else nrexcl}
 
 
